@@ -202,6 +202,7 @@ class Recorder:
         self.n_events = 0
         self.n_probe = 0
         self.n_episodes = 0
+        self.policy_fallbacks = 0
         hdr = {"k": "hdr", "env": adapter.name, "cfgid": cfg["id"], "cfg": adapter.cfg_record(cfg, self.env),
                "decl": self.decl, "seed": seed, "tier": tier}
         self.lines.append(hdr)
@@ -242,8 +243,12 @@ class Recorder:
             if not pl and probe_every and (i % probe_every == 0):
                 acts = ad.all_actions(env, cap=probe_cap or ad.probe_cap)
                 if acts is None:
-                    acts = ad.probe_sample(env, state, ts.observation, rng, probe_cap or ad.probe_cap) \
-                        if hasattr(ad, "probe_sample") else ad.random_actions(env, rng, probe_cap or ad.probe_cap)
+                    try:
+                        acts = ad.probe_sample(env, state, ts.observation, rng, probe_cap or ad.probe_cap) \
+                            if hasattr(ad, "probe_sample") else ad.random_actions(env, rng, probe_cap or ad.probe_cap)
+                    except Exception:  # noqa: BLE001  (steering code tripping over out-of-domain data must not stop
+                        acts = ad.random_actions(env, rng, probe_cap or ad.probe_cap)   # the recording: TLC judges it)
+                        self.policy_fallbacks += 1
                 if len(acts):
                     pst, pts = self.jprobe(state, jax.numpy.asarray(acts))
                     pst, pts = jsonify.to_numpy(pst), jsonify.to_numpy(pts)
@@ -251,7 +256,11 @@ class Recorder:
                         self._emit(self._event("step", line, ep, i + 1, False, False, acts[j],
                                                jsonify.tree_index(pst, j), jsonify.tree_index(pts, j)))
                         self.n_probe += 1
-            a = ad.choose(policy, env, state, ts.observation, rng, i)
+            try:
+                a = ad.choose(policy, env, state, ts.observation, rng, i)
+            except Exception:  # noqa: BLE001  (see above: fall back to a uniform in-spec action)
+                a = ad.random_actions(env, rng, 1)[0]
+                self.policy_fallbacks += 1
             state, ts = self.jstep(state, jax.numpy.asarray(a))
             if self.alt is not None:
                 astate, ats = self.alt_step(astate, jax.numpy.asarray(a))
